@@ -10,6 +10,7 @@ def _p():
 
 SUITE_P = {"toy": dict(SECPARAM=192, ln=384, lm=256, le=258, ls=896),
            "toy2": dict(SECPARAM=192, ln=448, lm=256, le=258, ls=960),
+           "micro": dict(SECPARAM=16, ln=40, lm=8, le=10, ls=56),
            "cl1024": dict(SECPARAM=512, ln=1024, lm=256, le=258, ls=1536),
            "cl2048": dict(SECPARAM=1024, ln=2048, lm=256, le=258, ls=2560),
            "cl3072": dict(SECPARAM=1536, ln=3072, lm=256, le=258, ls=3584)}
@@ -146,6 +147,52 @@ def prim_coq_terms(S, limit=60):
             args = [int(x) for x in t[2].split(",")[1:]]
             if all(abs(a) < 2**130 for a in args):
                 out.append((i, "o_prim %s%%N %s" % (t[1], C.coq_zl(args))))
+    return out
+
+# ---------------------------------------------------------------------------------------------- whole flows inside Coq
+KIND = {"bits": 0, "number": 1, "prime": 2, "int": 3}
+def coq_draws(dstr):
+    """the logged draws 'D:bits(40)=12,int(1;5)=3' as a Gallina list of draw records"""
+    if not dstr: return "[]"
+    out = []
+    for d in dstr[2:].split(","):
+        k, _, v = d.partition("=")
+        name, _, params = k.partition("(")
+        ps = [int(x) for x in params.rstrip(")").split(";")] if params else []
+        out.append("{| d_kind := %d%%N; d_params := %s; d_val := (%s)%%Z |}" % (KIND[name], C.coq_zl(ps), v))
+    return "[" + ";".join(out) + "]"
+
+def _cz(t): return C.coq_zl([int(x) for x in t.split(",")[1:]])
+def _coz(t): return "None" if t == "N" else "(Some %s)" % _cz(t)
+def _cn(t): return C.coq_nl([int(x) for x in t.split(",")[1:]])
+def _con(t): return "None" if t == "N" else "(Some %s)" % _cn(t)
+def _cdoc(t): return C.coq_zl(clj.flatten(clj.untok(t)))
+
+def micro_coq_term(line, draws):
+    """the Gallina term that the OCaml driver evaluates for this case line (suite micro only), with the logged draws"""
+    t = line.split(" ")
+    if len(t) < 2 or t[1] != "micro": return None
+    op, a = t[0], t[1:]
+    ds = coq_draws(draws)
+    S_ = "micro_suite"; BP = "boudot_params"
+    if op == "clsign": return "o_sign %s %s %s %s %s %s" % (S_, _cz(a[1]), _cz(a[2]), _cz(a[3]), _cz(a[4]), ds)
+    if op == "clverify": return "o_verify %s %s %s %s %s" % (S_, _cz(a[1]), _cz(a[2]), _cz(a[3]), _cz(a[4]))
+    if op == "clcommit": return "o_commit %s %s %s %s %s %s" % (S_, _cz(a[1]), _cz(a[2]), _cz(a[3]), _con(a[4]), ds)
+    if op == "clzkgen": return "o_zkgen %s %s %s %s %s %s %s %s %s %s" % (S_, BP, _cz(a[1]), _cz(a[2]), _coz(a[3]), _cz(a[4]), _cz(a[5]), _coz(a[6]), _cn(a[7]), ds)
+    if op == "clzkver": return "o_zkver %s %s %s %s %s %s %s %s %s" % (S_, BP, _cdoc(a[1]), _cz(a[2]), _coz(a[3]), _cz(a[4]), _cz(a[5]), _coz(a[6]), _cn(a[7]))
+    if op == "clblindsign": return "o_blindsign %s %s %s %s %s %s %s %s %s %s %s %s %s" % (S_, BP, _cz(a[1]), _cz(a[2]), _cz(a[3]), _cdoc(a[4]), _coz(a[5]), _cz(a[6]), _coz(a[7]), _coz(a[8]), _cn(a[9]), _con(a[10]), ds)
+    if op == "clunblind": return "o_unblind %s %s" % (_cz(a[1]), _cz(a[2]))
+    if op == "clspokgen": return "o_spokgen %s %s %s %s %s %s %s %s %s" % (S_, BP, _cz(a[1]), _cz(a[2]), _cz(a[3]), _cz(a[4]), _cz(a[5]), _cn(a[6]), ds)
+    if op == "clspokver": return "o_spokver %s %s %s %s %s %s %s %s %s%%nat" % (S_, BP, _cdoc(a[1]), _cz(a[2]), _cz(a[3]), _cz(a[4]), _cz(a[5]), _cn(a[6]), a[7])
+    return None
+
+def micro_coq_terms(S, limit=24):
+    out = []
+    for i, c in enumerate(S.cases):
+        if len(out) >= limit: break
+        if c[1].status != "OK" or not c[4]: continue
+        t = micro_coq_term(c[0], c[1].draws)
+        if t: out.append((i, t))
     return out
 
 # ====================================================================================== C13
